@@ -363,14 +363,22 @@ def get_tree_diff(
     nodes_added = list(data_both[data_both[indicator_col] == "right_only"][path_col])[
         ::-1
     ]
-    for node_removed in nodes_removed:
-        data_both[path_col] = data_both[path_col].str.replace(
-            node_removed, f"{node_removed} (-)", regex=True
-        )
-    for node_added in nodes_added:
-        data_both[path_col] = data_both[path_col].str.replace(
-            node_added, f"{node_added} (+)", regex=True
-        )
+    nodes_removed_set, nodes_added_set = set(nodes_removed), set(nodes_added)
+
+    def _add_suffix(path: str) -> str:
+        """Add suffix to every node along the path that is removed or added"""
+        path_parts = path.split(tree.sep)
+        new_path_parts = []
+        for idx, path_part in enumerate(path_parts):
+            sub_path = tree.sep.join(path_parts[: idx + 1])
+            if sub_path in nodes_removed_set:
+                path_part = f"{path_part} (-)"
+            elif sub_path in nodes_added_set:
+                path_part = f"{path_part} (+)"
+            new_path_parts.append(path_part)
+        return tree.sep.join(new_path_parts)
+
+    data_both[path_col] = data_both[path_col].map(_add_suffix)
 
     # Check tree attribute difference
     path_changes_list_of_dict: List[Dict[str, Dict[str, Any]]] = []
